@@ -1426,6 +1426,7 @@ struct Shared {
 	live_keys_main: AtomicU64,
 	writer_active: AtomicBool,
 	seed: u64,
+	cmd: String,
 }
 
 impl Shared {
@@ -1445,14 +1446,17 @@ impl Shared {
 			v.push((
 				sig.to_string(),
 				what.to_string(),
-				json!({"scenario": "multi-thread", "worker_seed": self.seed, "detail": detail}),
+				json!({"scenario": "multi-thread", "worker_seed": self.seed, "worker_cmd": self.cmd, "detail": detail}),
 			));
 		}
 		self.stop.store(true, Ordering::SeqCst);
 	}
 	fn fail(&self, f: Fail) {
+		self.fail_ctx(f, json!(null))
+	}
+	fn fail_ctx(&self, f: Fail, detail: Value) {
 		if f.violation {
-			self.violation(&f.sig, &f.what, json!(null));
+			self.violation(&f.sig, &f.what, detail);
 		} else {
 			let mut s = self.susp.lock().unwrap();
 			if s.len() < 20 {
@@ -1776,18 +1780,28 @@ fn mt_writer(sh: &Shared, store: &Store, p: &MtParams, tid: usize, wid: u8, mut 
 			idx
 		};
 		let mode = prng.below(5);
+		let ctx = |sh: &Shared| {
+			json!({"writer": wid + 1, "batch_keys": k, "scattered": mt_scattered(id), "mode": mode,
+				"deleted_batch_keys": victim.map(|v| v.3), "map_size_at_batch_start": map,
+				"map_size_now": LOG_MAP_SIZE.load(Ordering::SeqCst), "data_mdb_bytes": data_mdb_size(&p.dir),
+				"estimated_cost_budget_bytes": budget, "resizes_decided": LOG_RESIZE_DECIDED.load(Ordering::SeqCst),
+				"resizes_completed": LOG_RESIZE_END.load(Ordering::SeqCst),
+				"other_threads": (0..sh.roles.len()).map(|t| format!("{}:{}", sh.roles[t], state_name(sh.tstate[t].load(Ordering::Relaxed)))).collect::<Vec<_>>()})
+		};
 		if let Err(f) = mt_write_batch(store, &mut b, sh, id, k, victim.map(|v| (v.2, v.3)), other, mode) {
+			let c = ctx(sh);
 			drop(b);
 			sh.resolve(idx, EStatus::Dropped);
-			sh.fail(f);
+			sh.fail_ctx(f, c);
 			break;
 		}
 		let commit = prng.below(100) >= drop_pct;
 		if commit {
 			sh.st(tid, 3);
 			if let Err(e) = b.commit() {
+				let c = ctx(sh);
 				sh.resolve(idx, EStatus::Dropped);
-				sh.fail(fail_from_err("mt", "commit", &e));
+				sh.fail_ctx(fail_from_err("mt", "commit", &e), c);
 				break;
 			}
 			sh.resolve(idx, EStatus::Committed);
@@ -2383,6 +2397,7 @@ fn mt_run(p: &MtParams) -> MtResult {
 		live_keys_main: AtomicU64::new(0),
 		writer_active: AtomicBool::new(true),
 		seed: p.seed,
+		cmd: format!("c18 {}", mt_args(p).join(" ")),
 	});
 	let mut root = Prng::new(p.seed ^ 0xC18_C18_C18);
 	let all_done = Arc::new(AtomicBool::new(false));
